@@ -1,11 +1,11 @@
 (* C04 — only elemental abundances matter: equivalent x0 give identical plasmas.
    What is a theorem: x0 enters the problem only through the element totals b (generator check + structure of the
    model), b is linear in x0, and scaling all particle numbers leaves densities and chemical potentials unchanged —
-   so the fixed points for c*b are c times those for b, with the SAME densities.  NOT a theorem: uniqueness of the
-   fixed point / that both runs converge to it; validated on pairs of equivalent x0 on the implementation. *)
+   so the fixed points for c*b are c times those for b, with the SAME densities.  the fixed point is unique (strict Gibbs inequality, ideal mixture), so two runs
+   that converge for equivalent x0 converge to the same densities.  NOT a theorem: that both runs converge; validated on pairs of equivalent x0 on the implementation. *)
 From Coq Require Import Reals List ZArith.
 Import ListNotations.
-From MPC Require Import Num Species RInst StatMech RVec GenSpecies RefEnergy Gibbs GenEffects C02_proofs C04_proofs.
+From MPC Require Import Num Species RInst StatMech RVec GenSpecies RefEnergy Gibbs GenEffects C02_proofs C04_proofs C09_proofs C10_proofs C10_kkt C01_unique.
 Open Scope R_scope.
 
 (* the code reads x0 only to form the element totals (checked syntactically on every run), and in the model
@@ -41,3 +41,20 @@ Theorem C04_fixed_points_scale :
   (forall (col Ni : list R) (c : R), dotR col (map (fun x => c * x) Ni) = c * dotR col Ni).
 Proof. split; [exact densities_scal | split; [exact mu_entry_scal | exact dot_scal_r]]. Qed.
 Print Assumptions C04_fixed_points_scale.
+
+(* two fixed points with the same constraint totals (after the scaling above: for equivalent x0) have the same number densities:
+   the fixed point is unique (ideal mixture: reference energies and lowerings equal in the two states) *)
+Theorem C04_fixed_point_unique :
+  forall (U : Units R) (T P : R) (ps : list (entry * entry)) (cols : list (list R)) (lam1 lam2 : list R),
+  0 < k_b U * T -> 0 < P -> ps <> [] -> Forall same_data ps -> Forall (pair_pos U T) ps ->
+  let nu := map (fun p => e_n (snd p) - e_n (fst p)) ps in
+  let mu1 := map (fun p => mu_at U T (Ntot (map fst ps) * (k_b U * T) / P) (fst p)) ps in
+  let mu2 := map (fun p => mu_at U T (Ntot (map snd ps) * (k_b U * T) / P) (snd p)) ps in
+  Forall (fun c => List.length c = List.length nu) cols ->
+  Forall2 (fun mi ai => mi = - ai) mu1 (alam RNum cols lam1 (repeat 0 (List.length nu))) ->
+  Forall2 (fun mi ai => mi = - ai) mu2 (alam RNum cols lam2 (repeat 0 (List.length nu))) ->
+  Forall (fun c => dotR c nu = 0) cols ->
+  forall p, In p ps ->
+    e_n (snd p) / (Ntot (map snd ps) * (k_b U * T) / P) = e_n (fst p) / (Ntot (map fst ps) * (k_b U * T) / P).
+Proof. exact kkt_points_same_densities. Qed.
+Print Assumptions C04_fixed_point_unique.
